@@ -5,8 +5,8 @@ base = dict(
   Users='{"u1"}', Sessions='{"s1"}', LoginTo='<- LT_Any', PreLogged='<- PL_None',
   CmdKinds='{"login", "sel", "idle", "logout"}', MaxCmds='2', UpdKinds='{"normal"}', MaxUpdates='1', ChanCap='1',
   Removable='{"u1"}', LateDial='TRUE', CtxCancel='FALSE', FreeSections='FALSE', WriterPref='TRUE', Labels='FALSE', OpenEnv='FALSE', Eager='TRUE', Coarse='FALSE',
-  FixAcceptSelect='TRUE', FixQueueDiscard='TRUE', FixIDChanged='TRUE', FixPeek='TRUE', FixCapsOrder='TRUE', FixReleaseCtx='TRUE', Bug='"none"')
-SAFETY = "INVARIANTS TypeOK LockOrder StatesCounted NoUseAfterDbClose DbClosedMeansNoStates OnlyOwner"
+  FixAcceptSelect='TRUE', FixQueueDiscard='TRUE', FixIDChanged='TRUE', FixPeek='TRUE', FixCapsOrder='FALSE', FixReleaseCtx='TRUE', Bug='"none"')
+SAFETY = "INVARIANTS TypeOK LockOrderCode StatesCounted NoUseAfterDbClose DbClosedMeansNoStates OnlyOwner"
 def cfg(name, over, tail=SAFETY, sym=False, spec=False, comment=""):
     d = dict(base); d.update(over)
     out = ["\\* " + comment, "CONSTANTS"]
@@ -32,15 +32,15 @@ cfg("ascode.idchg", dict(FixIDChanged='FALSE', PreLogged='<- PL_All', UpdKinds='
     comment="applyMessageIDChanged as coded: expected OnlyOwner violated by the update goroutine")
 cfg("ascode.peek", dict(FixPeek='FALSE', Sessions='{"s1", "s2"}', PreLogged='<- PL_All', CmdKinds='{"noop"}', MaxCmds='0', MaxUpdates='0', Removable='{}'),
     comment="removeState as coded (other.HasMessage): expected OnlyOwner violated by another session's goroutine")
-cfg("ascode.caps", dict(FixCapsOrder='FALSE', CmdKinds='{"caps"}', MaxCmds='1', MaxUpdates='0', Removable='{}'),
-    comment="handleCapability as coded (capsLock then userLock): expected LockOrder violated (latent: both locks are private to one session)")
+cfg("ascode.caps", dict(FixCapsOrder='FALSE', CmdKinds='{"caps"}', MaxCmds='1', MaxUpdates='0', Removable='{}'), tail=SAFETY.replace("LockOrderCode", "LockOrder"),
+    comment="handleCapability as coded (capsLock then userLock): the strict hierarchy LockOrder is violated (latent: both locks are private to one session; LockOrderCode and the deadlock check hold in every other configuration with this order)")
 cfg("ascode.ctx", dict(FixReleaseCtx='FALSE', CtxCancel='TRUE', PreLogged='<- PL_All', CmdKinds='{}', MaxCmds='0', MaxUpdates='0', Removable='{}'),
     comment="Session.done as coded (releases the state with Serve's context): the application cancels that context, then closes: expected deadlock = Close waits for statesWG forever")
 # seeded bugs (detection power): each run is expected to end with a violation
 seed = dict(Sessions='{"s1", "s2"}', PreLogged='<- PL_All', CmdKinds='{"sel"}', MaxCmds='1', MaxUpdates='1', Removable='{}', Coarse='TRUE')
 one = dict(seed, Sessions='{"s1"}')
 cfg("bug.removeStateHoldsLock", dict(seed, MaxUpdates='0', CmdKinds='{"auth"}', Bug='"removeStateHoldsLock"'), tail="INVARIANTS TypeOK", comment="seeded: removeState keeps statesLock over db.Write and state.Close: expected deadlock (statesLock W -> db W against db W -> statesLock R)")
-cfg("bug.removeStateHoldsLock.order", dict(seed, Bug='"removeStateHoldsLock"'), comment="same seed: expected LockOrder violated")
+cfg("bug.removeStateHoldsLock.order", dict(seed, Bug='"removeStateHoldsLock"'), comment="same seed: expected LockOrderCode violated")
 cfg("bug.closeNoStatesWait", dict(one, MaxUpdates='0', Bug='"closeNoStatesWait"'), comment="seeded: user.close forgets statesWG.Wait")
 cfg("bug.doneNoRelease", dict(one, Bug='"doneNoRelease"'), comment="seeded: Session.done does not release the state")
 cfg("bug.idleNotStopped", dict(one, Bug='"idleNotStopped"', CmdKinds='{"idle"}'), comment="seeded: endIdle does not close idleCh (IDLE sender never stops)")
